@@ -5254,6 +5254,9 @@ func (a *Agent) TaskDispatch(RequestID uint32, CommandID uint32, Parser *parser.
 													break
 												}
 											}
+
+											// also forget the link to the previous parent in the database
+											teamserver.LinkRemove(DemonInfo.Pivots.Parent, DemonInfo, false)
 										}
 
 										DemonInfo.Active = true
